@@ -138,7 +138,17 @@ func init() {
 			ti := types[i%len(types)]
 			cr := r.fork()
 			data := u.validBytes(cr, ti, st)
-			switch cr.intn(6) {
+			switch cr.intn(7) {
+			case 6: // nested unknown groups with one end marker altered, dropped or duplicated (balanced-groups clause)
+				d := append([]byte{}, data...)
+				pos := 0
+				if recs, ok := u.parseRecs(ti, nil, data); ok && len(recs) > 0 {
+					pos = len(serialize(recs[:cr.intn(len(recs)+1)]))
+				}
+				g := nestedGroups(cr, 1+cr.intn(3))
+				d = append(d[:pos:pos], append(g, data[pos:]...)...)
+				u.decCase(out, ti, d, "group-structure")
+				continue
 			case 0, 1: // a prefix
 				if len(data) > 0 {
 					cut := cr.intn(len(data))
@@ -472,4 +482,55 @@ func (u *Universe) timedDec(out *bufio.Writer, ti *TypeInfo, data []byte, tag st
 		}
 	}
 	fmt.Fprintln(out, line)
+}
+
+// nestedGroups builds `depth` nested unknown groups (numbers 40..59, small fields inside) and then,
+// with probability 3/4, damages the group structure at ONE marker: wrong number on an inner or
+// outer end marker, a dropped end marker, an extra end marker, or swapped end markers.
+func nestedGroups(r *rng, depth int) []byte {
+	nums := make([]protowire.Number, depth)
+	for i := range nums {
+		nums[i] = protowire.Number(40 + r.intn(20))
+	}
+	damage := -1
+	kind := r.intn(5)
+	if r.intn(4) != 0 {
+		damage = r.intn(depth)
+	}
+	var b []byte
+	for i := 0; i < depth; i++ {
+		b = protowire.AppendTag(b, nums[i], protowire.StartGroupType)
+		if r.intn(2) == 0 {
+			b = protowire.AppendVarint(protowire.AppendTag(b, protowire.Number(1+r.intn(30)), protowire.VarintType), uint64(r.intn(300)))
+		}
+	}
+	for i := depth - 1; i >= 0; i-- {
+		n := nums[i]
+		if i == damage {
+			switch kind {
+			case 0:
+				n = n + 1 // mismatching end marker
+			case 1:
+				continue // dropped end marker
+			case 2:
+				b = protowire.AppendTag(b, n, protowire.EndGroupType) // duplicated end marker
+			case 3:
+				if i > 0 {
+					n = nums[i-1] // closes the parent's number instead
+					if n == nums[i] {
+						n++
+					}
+				} else {
+					n = n + 7
+				}
+			default:
+				n = protowire.Number(r.intn(3)) + 1
+				if n == nums[i] {
+					n += 3
+				}
+			}
+		}
+		b = protowire.AppendTag(b, n, protowire.EndGroupType)
+	}
+	return b
 }
